@@ -306,9 +306,15 @@ static void companions(const Edge& e) {
 }
 
 static void run_monitors(const Edge& e) {
+	g_ghost_diverged = false;
+	if (e.overflow && !(opt.props & (1u << C04))) {
+		// the call kept delivering callbacks far beyond any bound the properties allow and was abandoned: like a crash or a hang, this is
+		// reported by whichever check was exploring the call (C04 has its own wording for it)
+		for (int q = 1; q < PROP_MAX; ++q) if (opt.props & (1u << q)) { flag(q, "call-did-not-return", e, "more than %d callback deliveries in one call: the call does not terminate", G.budget); break; }
+		++n_validated; return;
+	}
 	Parsed P; parse(e, P);
 	g_cur_edge = &e;
-	g_ghost_diverged = false;
 	const unsigned p = opt.props;
 	if (p & (1u << C01)) m01(e, P);
 	if (p & (1u << C02)) m02(e, P);
